@@ -42,6 +42,17 @@ inductive LKind where
   | container | list | leaflist | leaf
   deriving Repr, DecidableEq
 
+/-- an annotation (`md:annotation`) of a module in the context -/
+structure Annot where
+  modName : Bytes
+  rev : Option Bytes
+  name : Bytes
+  ty : LTy
+  deriving Repr
+
+/-- how the dump names an instance of the annotation: `module:name` -/
+def Annot.key (a : Annot) : String := stringOfBytes (a.modName ++ [58] ++ a.name)
+
 /-- what the LYB walk reads from the compiled schema of one module -/
 structure LSchema where
   modName : Bytes
@@ -57,6 +68,8 @@ structure LSchema where
   sibs : Option Nat → List Nat
   /-- revision of `ietf-netconf-with-defaults` when the context has it (`ly_ctx_get_module_latest`) -/
   wd : Option (Option Bytes)
+  /-- the annotations metadata instances of the forest may use -/
+  annots : List Annot := []
 
 /-- "ietf-netconf-with-defaults" -/
 def wdModName : Bytes := [105, 101, 116, 102, 45, 110, 101, 116, 99, 111, 110, 102, 45, 119, 105, 116, 104, 45, 100, 101, 102, 97, 117, 108, 116, 115]
@@ -66,8 +79,16 @@ def wdAnnotName : Bytes := [100, 101, 102, 97, 117, 108, 116]
 def wdAnnotVal : Bytes := [116, 114, 117, 101]
 /-- "false" -/
 def wdAnnotFalse : Bytes := [102, 97, 108, 115, 101]
-/-- how the dump names the annotation instance -/
-def wdMeta : Meta := ("ietf-netconf-with-defaults:default", wdAnnotVal)
+/-- `ietf-netconf-with-defaults:default` (boolean) -/
+def wdAnnot (w : Option Bytes) : Annot := { modName := wdModName, rev := w, name := wdAnnotName, ty := .val .bool }
+/-- the instance `default = true` as the dump shows it -/
+def wdMeta : Meta := ((wdAnnot none).key, wdAnnotVal)
+
+/-- every annotation the context can create: the module's own and, when loaded, with-defaults' -/
+def LSchema.annotsEff (S : LSchema) : List Annot :=
+  match S.wd with
+  | some w => wdAnnot w :: S.annots
+  | none => S.annots
 
 /-- the plug-in that serves the type (`.name` in the plug-in record) -/
 def LTy.plugin : LTy → String
@@ -180,13 +201,23 @@ def isDefaultVal (S : LSchema) (n : DNode) : Bool := (S.dflts n.sid).contains n.
 def wdTagged (o : POpts) (S : LSchema) (n : DNode) : Bool :=
   o.wdAnnot && n.isTerm && S.wd.isSome && ((n.flags.dflt && (o.tagAll || o.tagImpl)) || (o.tagAll && isDefaultVal S n))
 
-/-- `lyb_print_node_header`: metadata count, the with-defaults annotation, node flags -/
+/-- the loop of `lyb_print_metadata`: module of the annotation (no features), annotation name, canonical value -/
+def metasOps (S : LSchema) : List Meta → Option (List Op)
+  | [] => some []
+  | m :: ms =>
+    match S.annotsEff.find? (fun a => a.key == m.1) with
+    | none => none
+    | some a => modelOps a.modName a.rev false +++ strOps P_METANAME a.name +++ strOps P_METAVAL m.2 +++ metasOps S ms
+
+/-- the metadata instances `lyb_print_metadata` writes for a node: the with-defaults annotation first (source variant
+`wdAnnot`), then `node->meta` -/
+def printedMetas (o : POpts) (S : LSchema) (n : DNode) : List Meta :=
+  (if wdTagged o S n then [wdMeta] else []) ++ n.metas
+
+/-- `lyb_print_node_header`: metadata count (one byte, `LY_EINT` beyond 255), the metadata, node flags -/
 def headerOps (o : POpts) (S : LSchema) (n : DNode) : Option (List Op) :=
-  if !n.metas.isEmpty then none
-  else if wdTagged o S n then
-    some [wNum P_METACOUNT 1] +++ modelOps wdModName (S.wd.getD none) false +++ strOps P_WDNAME wdAnnotName
-      +++ strOps P_WDVAL wdAnnotVal +++ some [wNum P_FLAGS n.flags.toNat]
-  else some [wNum P_METACOUNT 0, wNum P_FLAGS n.flags.toNat]
+  if (printedMetas o S n).length > 255 then none
+  else some [wNum P_METACOUNT (printedMetas o S n).length] +++ metasOps S (printedMetas o S n) +++ some [wNum P_FLAGS n.flags.toNat]
 
 def UINT32_MAX : Nat := 4294967295
 
@@ -306,32 +337,37 @@ def pModel (P : Params) (r : R) (withFeat : Bool) : R × Bytes × Option Bytes :
 def modMatches (name : Bytes) (rev : Option Bytes) (mname : Bytes) (mrev : Option Bytes) : Bool :=
   name == mname && (rev.isNone || rev == mrev)
 
-/-- `lyb_parse_metadata` + flags (`lyb_parse_node_header`).  The only annotation the modelled context can create is
-`ietf-netconf-with-defaults:default` (boolean); anything else fails (`LYD_PARSE_STRICT`) -/
+/-- `lyd_parser_create_meta(…, LY_VALUE_JSON, …)`: the value text stored with the annotation's type, canonical form -/
+def textVal (ty : LTy) (v : Bytes) : Option Bytes :=
+  match ty with
+  | .empty => if v.isEmpty then some [] else none
+  | .val t => match Val.store t LYD_HINT_DATA v with
+    | .ok x => some (Val.canon t x)
+    | .error _ => none
+
+/-- `lyb_parse_metadata` (`LYD_PARSE_STRICT`: the module must be in the context, the annotation in the module) -/
 def pMetas (P : Params) (S : LSchema) : Nat → R → Option (R × List Meta)
   | 0, r => some (r, [])
   | n + 1, r =>
     match pModel P r false with
-    | (r1, name, rev) =>
-      match S.wd with
-      | none => none
-      | some wrev =>
-        if !modMatches name rev wdModName wrev then none
-        else
-          match rdNum P r1 R_METANAME with
-          | (r2, nl) =>
-            match rread P r2 nl with
-            | (r3, aname) =>
-              match rdNum P r3 R_METAVAL with
-              | (r4, vl) =>
-                match rread P r4 vl with
-                | (r5, aval) =>
-                  if aname != wdAnnotName then none
-                  else if aval != wdAnnotVal && aval != wdAnnotFalse then none
-                  else
-                    match pMetas P S n r5 with
-                    | none => none
-                    | some (r6, ms) => some (r6, ("ietf-netconf-with-defaults:default", aval) :: ms)
+    | (r1, mname, mrev) =>
+      match rdNum P r1 R_METANAME with
+      | (r2, nl) =>
+        match rread P r2 nl with
+        | (r3, aname) =>
+          match rdNum P r3 R_METAVAL with
+          | (r4, vl) =>
+            match rread P r4 vl with
+            | (r5, aval) =>
+              match S.annotsEff.find? (fun a => modMatches mname mrev a.modName a.rev && a.name == aname) with
+              | none => none
+              | some a =>
+                match textVal a.ty aval with
+                | none => none
+                | some v =>
+                  match pMetas P S n r5 with
+                  | none => none
+                  | some (r6, ms) => some (r6, (a.key, v) :: ms)
 
 /-- the branch of `lyb_parse_metadata` for an annotation whose module is not in the context (no `LYD_PARSE_STRICT`):
 `lyb_skip_string` for the name and for the value, with length fields of `kn` / `kv` bytes.  The source has
@@ -503,7 +539,7 @@ def kindOf : SKind → Option LKind
   | .leaf => some .leaf
   | _ => none
 
-def ofTree (T : Schema) (tys : List LTy) (rev : Option Bytes) (wd : Option (Option Bytes)) : LSchema :=
+def ofTree (T : Schema) (tys : List LTy) (rev : Option Bytes) (wd : Option (Option Bytes)) (annots : List Annot := []) : LSchema :=
   let n := T.nodes.length
   let dps : List (Option Nat × Bool) := (List.range n).map fun i => (T.dataParent i, ((T.kind? i).bind kindOf).isSome)
   { modName := bytesOfString T.modName
@@ -513,6 +549,7 @@ def ofTree (T : Schema) (tys : List LTy) (rev : Option Bytes) (wd : Option (Opti
     ty := fun sid => tys.getD sid .empty
     dflts := fun sid => match T.get? sid with | some n => n.dflts | none => []
     sibs := fun par => (List.range n).filter fun i => match dps[i]? with | some (dp, isData) => isData && dp == par | none => false
-    wd := wd }
+    wd := wd
+    annots := annots }
 
 end LyModel.LybTree
